@@ -408,6 +408,40 @@ impl Quotes {
         };
         // ---- execute the same offer on the same state
         let before = w.pair_state(pi);
+        // ---- C14, observation point `ReverseSimulation`: the query answers what the pair's own reverse
+        // formula gives on the REPORTED reserves and the stored fees (the formula itself is no listed property's
+        // subject; the plumbing around it is)
+        if pa.contains(&oa) {
+            let (io, ia) = if pa[0] == oa { (0usize, 1usize) } else { (1usize, 0usize) };
+            let (ro, ra) = (before[io].saturating_sub(before[2 + io]), before[ia].saturating_sub(before[2 + ia]));
+            let want = (ra / (3 + (amt % 5))).max(1);
+            let ask_info = w.info(pa[ia]);
+            let fees = w.pairs[pi].fees;
+            let app = &w.app;
+            let q: Outcome<p::ReverseSimulationResponse> =
+                guarded(|| app.wrap().query_wasm_smart(&pair, &p::QueryMsg::ReverseSimulation { ask_asset: Asset { info: ask_info.clone(), amount: want.into() } }));
+            let hook = guarded(|| {
+                terraswap_pair::verif_hooks::compute_offer_amount(ro.into(), ra.into(), want.into(), pool_fee(fees.0, fees.1, fees.2)).map_err(|e| e.to_string())
+            });
+            let same = match (&q, &hook) {
+                (Outcome::Ok(x), Outcome::Ok(y)) => {
+                    mon.stat("reverse_simulation_answered");
+                    x.offer_amount == y.offer_amount
+                        && x.spread_amount == y.spread_amount
+                        && x.swap_fee_amount == y.swap_fee_amount
+                        && x.protocol_fee_amount == y.protocol_fee_amount
+                        && x.burn_fee_amount == y.burn_fee_amount
+                }
+                (Outcome::Ok(_), _) | (_, Outcome::Ok(_)) => false,
+                _ => {
+                    mon.stat("reverse_simulation_refused");
+                    true
+                }
+            };
+            mon.check("C14", "pair_reverse_simulation_on_reported_reserves", same, || {
+                format!("pair {pi}: ReverseSimulation ask {want} of asset {}: query {:?}, the pair's formula on reported reserves ({ro},{ra}) {:?}", pa[ia], q.as_ok().map(|x| x.offer_amount), hook.as_ok().map(|x| x.offer_amount))
+            });
+        }
         w.mint(&trader, oa, amt);
         let native = w.kinds[oa];
         let token = w.tokens[oa].clone();
